@@ -144,6 +144,21 @@ def directed_lifecycle_cases():
                             ops += [["heal"], ["close", side, 0], ["heal"]]
                         out.append({"tagA": 100 + n, "tagB": 5000 + n, "tsnA": 10 * n, "tsnB": 2**32 - 3 - n,
                                     "profile": "directed-reentrant", "wrap": False, "ops": ops})
+    # bufferedAmount against the threshold at its boundaries: amounts equal to, one below and one above the threshold,
+    # reached by one or two sends, drained by one flush or message by message
+    for t in (0, 1, 10, 100, 1200):
+        for sizes in ((t,), (t + 1,), (t, 1), (max(t - 1, 0), 2), (t + 1, t), (1, t, 1)):
+            for piecewise in (False, True):
+                n += 1
+                ops = [["start", "A"], ["start", "B"], ["heal"], ["create", "A", dict(label="thr", ordered=True)], ["heal"],
+                       ["threshold", "A", 0, t]]
+                for k, sz in enumerate(sizes):
+                    ops.append(["send", "A", 0, "b", sz, 1000 + n * 10 + k])
+                    if piecewise:
+                        ops += [["task", "A"], ["heal"]]
+                ops.append(["heal"])
+                out.append({"tagA": 100 + n, "tagB": 5000 + n, "tsnA": 10 * n, "tsnB": 2**32 - 3 - n, "profile": "directed",
+                            "wrap": False, "ops": ops})
     # id bookkeeping across close and re-use: one side opens channels, either side closes one of them, everything
     # settles, then BOTH sides create channels at the same moment (glare): automatically chosen ids must not collide,
     # freed ids may be used again, every channel opens on both sides
